@@ -10,7 +10,8 @@ LEVEL_TEXT = ('Held on the histories observed: random sequences of run/call/eval
               'run(inputs=) over snippets whose exact writes (print in every form, sys.stdout.write, input prompts, text before a '
               'raise) and reads are known by construction are executed in one real sandbox; after EVERY operation the shadow model '
               'is compared with get_raw_output(), get_output(), get_input(), and the per-execution context.output/.inputs, and the '
-              'real stdout must have received nothing.')
+              'real stdout must have received nothing (except in the one execution per history that is lent the real console). Some histories '
+              'run on a report of the grader\'s own.')
 LEVEL_NOTE = ('The model is written from the statement (concatenation since last clear; per execution rstrip/split/rstrip view only '
               'for executions that printed something; FIFO inputs with default "0"). Callable input sources are exercised but only '
               'their returned values are modelled.')
